@@ -112,6 +112,34 @@ Fixpoint read_all (fuel : nat) (dir : bool) (recs : list (list Z)) (r : reader) 
              end
   end.
 
+(* ---- a transport that fails transiently (a read deadline, a malformed relay message) ----
+   The reader's input arrives in segments; at the end of each segment the transport returns an
+   error and the application retries its Read on the next one (net.Conn permits that after a
+   timeout). An error with nothing of the next record consumed leaves the reader as it was; an
+   error inside a record (header or body partly consumed) is final, as any other failure. *)
+Definition read_message_t (dir : bool) (recs : list (list Z)) (r : reader) (input : list wbyte)
+  : rres * reader * list wbyte :=
+  if r_failed r then (RErrMac, r, input) else
+  match input with
+  | [] => (RErrShort, r, [])
+  | _ => read_message dir recs r input
+  end.
+
+Fixpoint read_segs (fuel : nat) (dir : bool) (recs : list (list Z)) (r : reader)
+  (cur : list wbyte) (more : list (list wbyte)) : list rres :=
+  match fuel with
+  | O => []
+  | S f =>
+      let '(res, r', rest) := read_message_t dir recs r cur in
+      res :: match res with
+             | RErrShort => match more with
+                            | [] => []
+                            | s :: more' => read_segs f dir recs r' s more'
+                            end
+             | _ => read_segs f dir recs r' rest more
+             end
+  end.
+
 Definition oks (l : list rres) : list (list Z) :=
   flat_map (fun r => match r with ROk p => [p] | _ => [] end) l.
 
